@@ -157,7 +157,7 @@ func (db *DB) Begin(update bool) *Txn {
 
 	if update {
 		txn.pendingWrites = make(map[types.Key]types.Entry)
-		txn.writesFp = make(map[uint64]struct{})
+		txn.writes = make(map[string]struct{})
 	}
 	return txn
 }
